@@ -122,7 +122,7 @@ def shard(ctx):
     while not ctx.out_of_time():
         rng = ctx.rng(i)
         i += ctx.nshards
-        w = workload.draw(rng, kinds=("isa", "casc", "corpus", "mut", "isamut", "macro", "deep", "chain"), weights=(3, 4, 1, 3, 2, 3, 3, 1))
+        w = workload.draw(rng, kinds=("isa", "casc", "corpus", "mut", "isamut", "macro", "deep", "chain", "ifs"), weights=(3, 4, 1, 3, 2, 3, 3, 1, 1))
         ctx.count("kind:" + w["kind"])
         budgets = BUDGETS if w["kind"] in ("casc", "corpus", "deep") else [rng.choice(BUDGETS), 10]
         for b in sorted(set(budgets)):
